@@ -45,7 +45,7 @@ def make(desc):
             Species.set_known_elements(list(lists["elements"]))
             Species.set_known_pseudoelements(list(lists["pseudo_elements"]))
         rl = [Reaction(list(r), list(p), -1.0, -1.0, 1e-10, 0.5, 10.0, ReactionType.GAS_TWOBODY, idxfromfile=i) for i, (r, p) in enumerate(desc["reactions"])]
-        net = Network(reactions=rl, required_species=list(desc.get("required", [])), **kw)
+        net = Network(reactions=rl, required_species=list(desc.get("required", [])), grain_model=desc.get("grain_model", ""), **kw)
     if desc.get("edit"):
         net.remove_reaction(0)
     return net
